@@ -973,6 +973,12 @@ theorem stepRemove_count {s s' : Shared} {th th' : Thread} {id : Nat} {tf : List
     refine ⟨?_, by simp, ?_⟩ <;> split <;> first | exact hn | rfl
   · cases h
 
+theorem owedP_of_ne_doc {th : Thread} (h : ∀ j, th.pc ≠ .doc j) : owedP th = 0 := by
+  unfold owedP
+  split
+  · rename_i j hpc; exact absurd hpc (h j)
+  · rfl
+
 theorem stepPurge_count {s s' : Shared} {th th' : Thread} {ids : List Nat}
     (h : stepPurge s th ids = some (s', th')) (hn : (s.docTokens.map (·.1)).Nodup)
     (hg : th.pc = .gate → th.n2 = 0) (hge : sumSnd s.docTokens + owedP th ≤ s.totalTokens) :
@@ -1020,8 +1026,7 @@ theorem stepPurge_count {s s' : Shared} {th th' : Thread} {ids : List Nat}
     simp only [] at h
     cases h
     refine ⟨hn, by simp only []; repeat' split <;> simp, ?_⟩
-    simp only [owedP, hpc]
-    repeat' split <;> simp
+    rw [owedP_of_ne_doc (th := th) (by simp [hpc]), owedP_of_ne_doc (by intro j'; simp only []; repeat' split <;> simp)]
   · -- dropEmpty
     rename_i j hpc
     split at h
@@ -1031,13 +1036,13 @@ theorem stepPurge_count {s s' : Shared} {th th' : Thread} {ids : List Nat}
       · split at h
         · cases h
           refine ⟨hn, by simp only []; repeat' split <;> simp, ?_⟩
-          simp only [owedP, hpc]; repeat' split <;> simp
+          rw [owedP_of_ne_doc (th := th) (by simp [hpc]), owedP_of_ne_doc (by intro j'; simp only []; repeat' split <;> simp)]
         · cases h
           refine ⟨hn, by simp only []; repeat' split <;> simp, ?_⟩
-          simp only [owedP, hpc]; repeat' split <;> simp
+          rw [owedP_of_ne_doc (th := th) (by simp [hpc]), owedP_of_ne_doc (by intro j'; simp only []; repeat' split <;> simp)]
       · cases h
         refine ⟨hn, by simp only []; repeat' split <;> simp, ?_⟩
-        simp only [owedP, hpc]; repeat' split <;> simp
+        rw [owedP_of_ne_doc (th := th) (by simp [hpc]), owedP_of_ne_doc (by intro j'; simp only []; repeat' split <;> simp)]
   · -- bucket
     rename_i j hpc
     split at h
@@ -1046,10 +1051,10 @@ theorem stepPurge_count {s s' : Shared} {th th' : Thread} {ids : List Nat}
       split at h
       · cases h
         refine ⟨hn, by simp only []; repeat' split <;> simp, ?_⟩
-        simp only [owedP, hpc]; repeat' split <;> simp
+        rw [owedP_of_ne_doc (th := th) (by simp [hpc]), owedP_of_ne_doc (by intro j'; simp only []; repeat' split <;> simp)]
       · cases h
         refine ⟨hn, by simp only []; repeat' split <;> simp, ?_⟩
-        simp only [owedP, hpc]; repeat' split <;> simp
+        rw [owedP_of_ne_doc (th := th) (by simp [hpc]), owedP_of_ne_doc (by intro j'; simp only []; repeat' split <;> simp)]
   · -- unlist
     rename_i j hpc
     split at h
@@ -1059,18 +1064,18 @@ theorem stepPurge_count {s s' : Shared} {th th' : Thread} {ids : List Nat}
       · split at h
         · cases h
           refine ⟨hn, by simp only []; repeat' split <;> simp, ?_⟩
-          simp only [owedP, hpc]; repeat' split <;> simp
+          rw [owedP_of_ne_doc (th := th) (by simp [hpc]), owedP_of_ne_doc (by intro j'; simp only []; repeat' split <;> simp)]
         · cases h
           refine ⟨hn, by simp only []; repeat' split <;> simp, ?_⟩
-          simp only [owedP, hpc]; repeat' split <;> simp
+          rw [owedP_of_ne_doc (th := th) (by simp [hpc]), owedP_of_ne_doc (by intro j'; simp only []; repeat' split <;> simp)]
       · cases h
         refine ⟨hn, by simp only []; repeat' split <;> simp, ?_⟩
-        simp only [owedP, hpc]; repeat' split <;> simp
+        rw [owedP_of_ne_doc (th := th) (by simp [hpc]), owedP_of_ne_doc (by intro j'; simp only []; repeat' split <;> simp)]
   · -- stale
     rename_i hpc
     cases h
     refine ⟨hn, by simp only []; repeat' split <;> simp, ?_⟩
-    simp only [owedP, hpc]; repeat' split <;> simp
+    rw [owedP_of_ne_doc (th := th) (by simp [hpc]), owedP_of_ne_doc (by intro j'; simp only []; repeat' split <;> simp)]
   · -- staleBucket
     rename_i j hpc
     split at h
@@ -1079,15 +1084,15 @@ theorem stepPurge_count {s s' : Shared} {th th' : Thread} {ids : List Nat}
       split at h
       · cases h
         refine ⟨hn, by simp only []; repeat' split <;> simp, ?_⟩
-        simp only [owedP, hpc]; repeat' split <;> simp
+        rw [owedP_of_ne_doc (th := th) (by simp [hpc]), owedP_of_ne_doc (by intro j'; simp only []; repeat' split <;> simp)]
       · cases h
         refine ⟨hn, by simp only []; repeat' split <;> simp, ?_⟩
-        simp only [owedP, hpc]; repeat' split <;> simp
+        rw [owedP_of_ne_doc (th := th) (by simp [hpc]), owedP_of_ne_doc (by intro j'; simp only []; repeat' split <;> simp)]
   · -- mstep
     rename_i hpc
     cases h
     refine ⟨by split <;> exact hn, by simp, ?_⟩
-    simp only [owedP, hpc]
+    rw [owedP_of_ne_doc (th := th) (by simp [hpc]), owedP_of_ne_doc (by intro j'; simp)]
     split <;> rfl
   · cases h
 
@@ -1119,6 +1124,103 @@ theorem stepCompact_count {s s' : Shared} {th th' : Thread}
       · cases h; exact ⟨hn, by simp, rfl⟩
       · cases h; exact ⟨hn, by simp, rfl⟩
   · cases h
+
+theorem owedL_set : ∀ (l : List Thread) (t : Nat) (th th' : Thread), l[t]? = some th →
+    owedL (l.set t th') + owedT th = owedL l + owedT th'
+  | [], _, _, _, h => by simp at h
+  | x :: xs, 0, th, th', h => by
+    simp at h; subst h
+    simp only [List.set_cons_zero, owedL]; omega
+  | x :: xs, t + 1, th, th', h => by
+    simp only [List.getElem?_cons_succ] at h
+    have := owedL_set xs t th th' h
+    simp only [List.set_cons_succ, owedL]; omega
+
+theorem owedT_le_owedL : ∀ (l : List Thread) (t : Nat) (th : Thread), l[t]? = some th → owedT th ≤ owedL l
+  | [], _, _, h => by simp at h
+  | x :: xs, 0, th, h => by simp at h; subst h; simp only [owedL]; omega
+  | x :: xs, t + 1, th, h => by
+    simp only [List.getElem?_cons_succ] at h
+    have := owedT_le_owedL xs t th h
+    simp only [owedL]; omega
+
+theorem stepThread_count {s s' : Shared} {th th' : Thread} (h : stepThread s th = some (s', th'))
+    (hn : (s.docTokens.map (·.1)).Nodup) (hg : th.pc = .gate → th.n2 = 0)
+    (hge : sumSnd s.docTokens + owedT th ≤ s.totalTokens) :
+    (s'.docTokens.map (·.1)).Nodup ∧ th'.pc ≠ .gate ∧
+      s'.totalTokens + owedT th + sumSnd s.docTokens = s.totalTokens + owedT th' + sumSnd s'.docTokens := by
+  have hk := stepThread_kind h
+  unfold stepThread at h
+  cases hkind : th.kind with
+  | insert id tf =>
+    rw [hkind] at h
+    have := stepInsert_count h hn
+    have e1 : owedT th = 0 := by simp [owedT, hkind]
+    have e2 : owedT th' = 0 := by simp [owedT, hk, hkind]
+    rw [e1, e2]; exact ⟨this.1, this.2.1, by omega⟩
+  | remove id tf =>
+    rw [hkind] at h
+    have e1 : owedT th = 0 := by simp [owedT, hkind]
+    have e2 : owedT th' = 0 := by simp [owedT, hk, hkind]
+    have := stepRemove_count h hn (by omega)
+    rw [e1, e2]; exact ⟨this.1, this.2.1, by omega⟩
+  | purge ids =>
+    rw [hkind] at h
+    have e1 : owedT th = owedP th := by simp [owedT, hkind]
+    have e2 : owedT th' = owedP th' := by simp [owedT, hk, hkind]
+    rw [e1] at hge ⊢
+    rw [e2]
+    exact stepPurge_count h hn hg hge
+  | compact =>
+    rw [hkind] at h
+    have := stepCompact_count h hn
+    have e1 : owedT th = 0 := by simp [owedT, hkind]
+    have e2 : owedT th' = 0 := by simp [owedT, hk, hkind]
+    rw [e1, e2]; exact ⟨this.1, this.2.1, by omega⟩
+
+theorem CountInv.step {t : Nat} {c c' : Cfg} (h : step t c = some c') (hi : CountInv c) : CountInv c' := by
+  obtain ⟨th, th', hth, hs, hset⟩ := step_inv h
+  have hmem : th ∈ c.threads := List.mem_of_getElem? hth
+  have hle := owedT_le_owedL c.threads t th hth
+  have htot := hi.total
+  obtain ⟨hn', hpc', heq⟩ := stepThread_count hs hi.nodup (hi.gate0 th hmem) (by omega)
+  have hset' := owedL_set c.threads t th th' hth
+  refine ⟨hn', ?_, ?_⟩
+  · rw [hset]; omega
+  · intro x hx hxpc
+    rw [hset] at hx
+    rcases List.mem_or_eq_of_mem_set hx with hx | hx
+    · exact hi.gate0 x hx hxpc
+    · subst hx; exact absurd hxpc hpc'
+
+theorem run_countInv (sched : List Nat) (c0 : Cfg) (h0 : CountInv c0) : CountInv (run sched c0) :=
+  Sched.sched_inv step CountInv (fun _ _ _ ha hs => CountInv.step hs ha) sched c0 h0
+
+theorem owedL_of_quiescent : ∀ (l : List Thread), l.all Thread.finished = true → owedL l = 0
+  | [], _ => rfl
+  | th :: r, h => by
+    simp only [List.all_cons, Bool.and_eq_true] at h
+    have hpc : th.pc = .done := by simpa [Thread.finished] using h.1
+    have : owedT th = 0 := by
+      unfold owedT; split
+      · exact owedP_of_ne_doc (by simp [hpc])
+      · rfl
+    simp only [owedL, this, owedL_of_quiescent r h.2]
+
+theorem owedL_of_fresh : ∀ (l : List Thread), (∀ th ∈ l, th.pc = .gate) → owedL l = 0
+  | [], _ => rfl
+  | th :: r, h => by
+    have hpc := h th List.mem_cons_self
+    have : owedT th = 0 := by
+      unfold owedT; split
+      · exact owedP_of_ne_doc (by simp [hpc])
+      · rfl
+    simp only [owedL, this, owedL_of_fresh r (fun x hx => h x (List.mem_cons_of_mem _ hx))]
+
+/-- consistent shared counters and threads that have not started -/
+theorem CountInv.of_fresh {c : Cfg} (hn : (c.sh.docTokens.map (·.1)).Nodup)
+    (ht : c.sh.totalTokens = sumSnd c.sh.docTokens) (hf : ∀ th ∈ c.threads, th.pc = .gate ∧ th.n2 = 0) : CountInv c :=
+  ⟨hn, by rw [owedL_of_fresh _ (fun th h => (hf th h).1)]; omega, fun th h _ => (hf th h).2⟩
 
 end Bm25Conc
 end AndaVerif
